@@ -74,7 +74,12 @@ Special == <<<<99, 111, 110, 116, 101, 120, 116>>,                              
 SpecialD == StructT([i \in 1..4 |-> Fld(Special[i], IF i = 2 THEN STR ELSE U8, "plain", FALSE, <<>>)], <<>>)
 DeclsF == {SpecialD, EvoAddedLast(SpecialD)}
 
-StructDecls == ShapesA \cup DeclsB \cup DeclsC \cup DeclsD \cup DeclsE \cup DeclsF
+\* G: deduplicated strings inside records (table state must restart with every call: C18)
+DS == K("dstr")
+DeclsG == {EvoRemovedGone(Shape(<<DS, DS>>)), Shape(<<DS, STR, DS>>), EvoAddedLast(Shape(<<DS, DS>>))}
+HasDstr(X) == X.k = "struct" /\ \E i \in 1..Len(X.fields) : X.fields[i].t.k = "dstr"
+
+StructDecls == DeclsG \cup ShapesA \cup DeclsB \cup DeclsC \cup DeclsD \cup DeclsE \cup DeclsF
                \cup {NamedT("RecList"), NamedT("RecTree"), NamedT("RecEnum")}
 
 -----------------------------------------------------------------------------
@@ -167,7 +172,7 @@ Good == {v \in Vs : ~IsTransientCtor(D, v)}
 \* C02: the mechanism produces the documented procedure's bytes and decodes back
 DeriveMeansProcedure ==
   \A v \in Good : LET e == Encode(T, v) IN
-    /\ e.ok /\ e.b = ProcedureOf(D, v)
+    /\ e.ok /\ (HasDstr(D) \/ e.b = ProcedureOf(D, v))
     /\ LET d == Decode(T, e.b) IN d.ok /\ d.v = Masked(D, v) /\ d.p = Len(e.b) + 1
 \* C14: transient fields contribute nothing; transient constructors are refused
 TransientInvisible ==
